@@ -684,6 +684,9 @@ class ListItem(BlockToken):
                     lines.backstep()
                     del line_buffer[-newline_count:]
                     break
+                # ...or the item is still empty: there is no paragraph to continue
+                if not line_buffer:
+                    break
                 continuation = next_line
 
             line_buffer.append(continuation)
